@@ -316,7 +316,7 @@ def run_task(args):
     t0 = time.time()
     res = {"sub": sid, "shard": shard, "evaluations": 0, "nontrivial": set(),
            "labels": {}, "excluded": {}, "known_excluded": {}, "first": [], "low": [],
-           "failure": None, "skipped_budget": 0, "error": None, "exhaustive": False,
+           "failure": None, "failures": {}, "skipped_budget": 0, "error": None, "exhaustive": False,
            "planned": n}
     state = {"failing": {}, "t_fail": None, "last_fail": None}
 
@@ -368,8 +368,13 @@ def run_task(args):
                 try:
                     one(case)
                 except Violation:
-                    res["failure"] = state["last_fail"]
-                    break
+                    # enumerations continue past a failure and keep the first
+                    # case of every distinct signature (root-cause bucketing)
+                    f = state["last_fail"]
+                    key = canon(f.get("sig") or {"msg": f["msg"][:60]})
+                    if key not in res["failures"] and len(res["failures"]) < 12:
+                        res["failures"][key] = f
+                    state["t_fail"] = None
             if res["skipped_budget"]:
                 res["exhaustive"] = False
         else:
@@ -516,6 +521,7 @@ def run_property(pid, tier, seed, only=None, procs=None, budget_s=None, scale=1.
     samples = []
     skipped_budget = 0
     exhaustive_subs = []
+    enum_seen = set()
     for r in results:
         if r["error"]:
             errors.append(r["error"])
@@ -539,6 +545,12 @@ def run_property(pid, tier, seed, only=None, procs=None, budget_s=None, scale=1.
         if r["failure"] is not None:
             path = _write_replay(pid, r["failure"])
             violations.append((r["sub"], path, r["failure"]["msg"]))
+        for key, f in sorted(r["failures"].items()):
+            if (r["sub"], key) in enum_seen:
+                continue
+            enum_seen.add((r["sub"], key))
+            path = _write_replay(pid, f)
+            violations.append((r["sub"], path, f["msg"]))
     for sid, ps in per_sub.items():
         nontrivial |= {sid.encode() + d for d in ps["distinct_nontrivial"]}
         ps["distinct_nontrivial"] = len(ps["distinct_nontrivial"])
